@@ -309,7 +309,7 @@ pub fn gen_cfg(id: &str, tier: Tier, variant: u64) -> GenCfg {
         }
         // "any history": also what destructors do (downgrade / clone / drop of the
         // handles they own, nested collections)
-        "C02" => {
+        "C02" | "C04" => {
             g.dact_pct = 25;
         }
         "C10" => {
